@@ -321,7 +321,7 @@ func runC03(c *ctx, r *Report) error {
 	if !c.quick {
 		per = 300
 	}
-	if err := pwStandard(c, r, "ast", per, false); err != nil {
+	if err := pwStandard(c, r, "ast", per, true); err != nil {
 		return err
 	}
 	// AL.Props.C03Rule: in the model of rule_expression.go every value string of the AST is run through the placeholder scan
